@@ -15,6 +15,7 @@ import (
 	"regexp"
 	"strconv"
 	"strings"
+	"time"
 
 	"github.com/martian-lang/martian/martian/syntax"
 )
@@ -474,5 +475,379 @@ func c08GenIdent(c *Ctx) string {
 	return sb.String()
 }
 
+// ---------- whole tokenizer: token streams of the real scanner loop vs the model ----------
+
+var c08StreamPieces = []string{
+	// keywords and near-keywords
+	"stage", "stagex", "sta", "mem_gb", "memgb", "vmem_gb", "vmemgb", "in", "int", "inx", "@include", "@includex", "@inc", "@",
+	"_", "__a", "_1", "_a", "pipeline", "call", "comp", "compiled", "return", "retain", "out", "src", "as", "filetype", "map",
+	"string", "struct", "strict", "float", "false", "path", "bool", "split", "using", "local", "preflight", "volatile",
+	"disabled", "threads", "special", "py", "exec", "self", "true", "null", "default", "defaultx", "FOO", "a1", "é", "aé", "stageé", "in\x80",
+	// punctuation
+	"(", ")", "*", ",", ".", ":", ";", "<", "=", ">", "[", "]", "{", "}", "$", "!", "+", "/", "'", "\\", "~", "|",
+	// comments
+	"# x\n", "#", "# \u00e9\n", "# \xff\n", "# \xef\xbf\xbd\n", "#\n#\n", "# no newline", "#  padded \t \n", "# nbsp\u00a0\n", "# x\u2003\u3000\n",
+	"# cr\r\n", "#\u0085", "# a\xe2\x80", "#\u2028#", "# \u200b \n", "#\x00\n",
+	// white space
+	" ", "\n", "\t\r\n", "\v\f", "  ", "\n\n", " \n ", "\u00a0", "\u0085", "\u1680", "\u2003", "\u2028", "\u2029", "\u202f", "\u205f", "\u3000", "\u2000", "\u200a",
+	"\u200b", "\ufeff", "\ufffd", "\u180e", "\x80", "\x85", "\xa0", "\xc2", "\xe2\x80", "\u00a0 \u2003", " \n\u3000", "\u00a0\x80", " \xff", " \ufffd", "\u2028\n",
+	// strings
+	`"a"`, "\"a\nb\"", `""`, `"\n"`, "\"\n\n\"", `"a`, `"\q"`, "\"é\"", "\"\xff\"",
+	// invalid bytes and control characters
+	"\x00", "\xff", "\xfe\xff", "\x7f", "\x1b", "\xc0\x80", "\xed\xa0\x80", "\xf4\x90\x80\x80", "\xf0\x9f\x98\x80",
+	// numbers
+	"0", "-", "-1", "1.5", "1e5", "1.", "-x", "1x", "99999999999999999999", "1e999", "007",
+}
+
+type c08Stream struct {
+	src  string
+	kind string
+}
+
+func c08GenStreams(c *Ctx, n int) []c08Stream {
+	var out []c08Stream
+	// (a) the repo's .mro files whole, and byte-level mutants of them
+	prog, _ := c08LoadSeeds(c)
+	var files []string
+	for _, sd := range prog {
+		files = append(files, string(sd.src))
+	}
+	for _, f := range files {
+		out = append(out, c08Stream{f, "file"})
+	}
+	breaking := map[string]bool{}
+	for _, p := range c08StreamPieces {
+		if _, toks, _, pn := c08GoLex(p + " "); pn == "" && len(toks) > 0 && toks[len(toks)-1].Id == syntax.VerifTokINVALID {
+			breaking[p] = true
+		}
+	}
+	piece := func() string {
+		switch k := c.Rng.Intn(20); {
+		case k == 0:
+			return c08GenNum(c)
+		case k == 1:
+			return c08GenStr(c)
+		case k == 2:
+			return c08GenIdent(c)
+		default:
+			// a piece that ends the scan (INVALID) only now and then: what follows it is never scanned
+			for {
+				p := c08StreamPieces[c.Rng.Intn(len(c08StreamPieces))]
+				if !breaking[p] || c.Rng.Intn(12) == 0 {
+					return p
+				}
+			}
+		}
+	}
+	nmut := n / 10
+	for i := 0; i < nmut && len(files) > 0; i++ {
+		b := []byte(files[c.Rng.Intn(len(files))])
+		if len(b) > 1500 {
+			// a window of the file (keeps the quick tier fast)
+			st := c.Rng.Intn(len(b) - 1500)
+			b = b[st : st+1500]
+		}
+		for k := 1 + c.Rng.Intn(3); k > 0 && len(b) > 0; k-- {
+			at := c.Rng.Intn(len(b))
+			switch c.Rng.Intn(4) {
+			case 0:
+				b = append(b[:at:at], append([]byte{byte(c.Rng.Intn(256))}, b[at:]...)...)
+			case 1:
+				b = append(b[:at:at], b[at+1:]...)
+			case 2:
+				b[at] = byte(c.Rng.Intn(256))
+			default:
+				b = append(b[:at:at], append([]byte(piece()), b[at:]...)...)
+			}
+		}
+		out = append(out, c08Stream{string(b), "file-mutant"})
+	}
+	// (b) random concatenations of pieces, with and without separators
+	for i := 0; i < n; i++ {
+		k := 1 + c.Rng.Intn(40)
+		if c.Rng.Intn(3) != 0 {
+			k = 1 + c.Rng.Intn(8)
+		}
+		sepMode := c.Rng.Intn(3)
+		var sb strings.Builder
+		for j := 0; j < k; j++ {
+			sb.WriteString(piece())
+			switch {
+			case sepMode == 1, sepMode == 2 && c.Rng.Intn(2) == 0:
+				sb.WriteString([]string{" ", " ", "\n", ", ", "\t", "\n  ", " ", " # c\n"}[c.Rng.Intn(8)])
+			}
+		}
+		out = append(out, c08Stream{sb.String(), "pieces"})
+	}
+	return out
+}
+
+// c08GoLex renders the real scanner's result in the format of the driver's C08.lex reply.
+func c08GoLex(src string) (rendered string, toks []syntax.VerifTok, pos int, panicked string) {
+	defer func() {
+		if p := recover(); p != nil {
+			panicked = fmt.Sprint(p)
+		}
+	}()
+	toks, cms, pos := syntax.VerifLexAll([]byte(src), 1<<20)
+	ts := make([]string, len(toks))
+	for i, t := range toks {
+		ts[i] = fmt.Sprintf("%d:%s:%d:%d", t.Id, hx(string(t.Text)), t.Line, t.Col)
+	}
+	cs := make([]string, len(cms))
+	for i, cm := range cms {
+		cs[i] = fmt.Sprintf("%d:%d:%s", cm.Line, cm.Col, hx(cm.Value))
+	}
+	j := func(xs []string) string {
+		if len(xs) == 0 {
+			return "."
+		}
+		return strings.Join(xs, " ")
+	}
+	return j(ts) + " | " + j(cs) + " | " + strconv.Itoa(pos), toks, pos, ""
+}
+
+// c08TokNames: id -> name of the token constants of grammar.go as regenerated into Gen.tokIds
+// (driver op C08.tokids).  (syntax.VerifTokenName indexes mmToknames with id-mmPrivate+1, which
+// is right only up to INVALID: goyacc lists the character literals of the grammar in between.)
+var c08TokNames map[int]string
+
+func c08TokName(id int) string {
+	if id > 0 && id < 128 {
+		return "'" + string(rune(id)) + "'"
+	}
+	if nm, ok := c08TokNames[id]; ok {
+		return nm
+	}
+	return strconv.Itoa(id)
+}
+
+// c08ReadableTok turns one `id:hex:line:col` (token) or `line:col:hex` (comment) item into text.
+func c08ReadableItem(section int, item string) string {
+	f := strings.Split(item, ":")
+	if section == 0 && len(f) == 4 {
+		id, _ := strconv.Atoi(f[0])
+		return fmt.Sprintf("token %s %s at line %s col %s", c08TokName(id), strconv.Quote(unhx(f[1])), f[2], f[3])
+	}
+	if section == 1 && len(f) == 3 {
+		return fmt.Sprintf("comment %s at line %s col %s", strconv.Quote(unhx(f[2])), f[0], f[1])
+	}
+	if section == 2 {
+		return "final position " + item
+	}
+	return item
+}
+
+// c08FirstDiff: the first differing item of two C08.lex renderings, readable.
+func c08FirstDiff(impl, model string) (string, string) {
+	is, ms := strings.Split(impl, " | "), strings.Split(model, " | ")
+	if len(is) != 3 || len(ms) != 3 {
+		return impl, model
+	}
+	for sec := 0; sec < 3; sec++ {
+		if is[sec] == ms[sec] {
+			continue
+		}
+		ia, ma := strings.Fields(is[sec]), strings.Fields(ms[sec])
+		if is[sec] == "." {
+			ia = nil
+		}
+		if ms[sec] == "." {
+			ma = nil
+		}
+		for k := 0; k < len(ia) || k < len(ma); k++ {
+			a, b := "(no further item)", "(no further item)"
+			if k < len(ia) {
+				a = c08ReadableItem(sec, ia[k])
+			}
+			if k < len(ma) {
+				b = c08ReadableItem(sec, ma[k])
+			}
+			if a != b {
+				return fmt.Sprintf("item %d: %s", k, a), fmt.Sprintf("item %d: %s", k, b)
+			}
+		}
+	}
+	return impl, model
+}
+
+// c08WalkTokens monitors the real tokenizer directly: nextToken on every head the scanner loop
+// reaches returns a prefix of the head, non-empty unless INVALID; the tokens the loop returns are
+// exactly those pieces of the source, in order, and its final position is where the walk ends.
+func c08WalkTokens(src string, toks []syntax.VerifTok, pos int) string {
+	b := []byte(src)
+	p, k := 0, 0
+	for p < len(b) {
+		id, v := syntax.VerifNextToken(b[p:])
+		if len(v) > len(b)-p || string(v) != string(b[p:p+len(v)]) {
+			return fmt.Sprintf("nextToken at offset %d returned %q, not a prefix of the input there", p, v)
+		}
+		if len(v) == 0 && id != syntax.VerifTokINVALID {
+			return fmt.Sprintf("nextToken at offset %d returned an empty token %d that is not INVALID (the scanner loop cannot advance)", p, id)
+		}
+		if id != syntax.VerifTokSKIP && id != syntax.VerifTokCOMMENT {
+			if k >= len(toks) || toks[k].Id != id || string(toks[k].Text) != string(v) {
+				return fmt.Sprintf("token %d of the scanner loop is not the text at offset %d (%q)", k, p, v)
+			}
+			k++
+		}
+		p += len(v)
+		if id == syntax.VerifTokINVALID {
+			break
+		}
+	}
+	if k != len(toks) {
+		return fmt.Sprintf("the scanner loop returned %d tokens, the input has %d", len(toks), k)
+	}
+	if p != pos {
+		return fmt.Sprintf("the scanner loop ended at offset %d, the tokens end at %d", pos, p)
+	}
+	return ""
+}
+
+// c08ShrinkBytes: greedy shrink of a byte string under pred (drop chunks of halving size, then
+// truncate), at most budget evaluations of pred.
+func c08ShrinkBytes(src string, pred func(string) bool, budget int) string {
+	cur := src
+	for chunk := (len(cur) + 1) / 2; chunk >= 1 && budget > 0; {
+		changed := false
+		for at := 0; at < len(cur) && budget > 0; {
+			end := at + chunk
+			if end > len(cur) {
+				end = len(cur)
+			}
+			cand := cur[:at] + cur[end:]
+			budget--
+			if cand != cur && pred(cand) {
+				cur = cand
+				changed = true
+			} else {
+				at += chunk
+			}
+		}
+		if chunk == 1 && !changed {
+			break
+		}
+		if chunk > 1 {
+			chunk = (chunk + 1) / 2
+		}
+	}
+	return cur
+}
+
 func c08TokenStream(c *Ctx) {
+	r := c.Res
+	n := 3000
+	if c.Thorough {
+		n = 90000
+	}
+	t0 := time.Now()
+	c08TokNames = map[int]string{}
+	for _, f := range strings.Fields(c.Drv.Ask("C08.tokids")) {
+		if nv := strings.SplitN(f, "=", 2); len(nv) == 2 {
+			if id, err := strconv.Atoi(nv[1]); err == nil {
+				c08TokNames[id] = nv[0]
+			}
+		}
+	}
+	streams := c08GenStreams(c, n)
+	reqs := make([][]string, len(streams))
+	for i, s := range streams {
+		reqs[i] = []string{"C08.lex", hx(s.src)}
+	}
+	reps := c.Drv.AskBatch(reqs)
+	ntok, nbytes := 0, 0
+	reported := map[string]bool{}
+	for i, s := range streams {
+		g, toks, pos, panicked := c08GoLex(s.src)
+		r.count("stream:"+s.src, len(toks) > 1)
+		r.hist("stream:" + s.kind)
+		nbytes += len(s.src)
+		if panicked != "" {
+			r.violate(Violation{Kind: "property", Key: "C08:lexer-panic",
+				What:  "the scanner loop (mmLexInfo.Lex) panicked: " + panicked,
+				Input: strconv.Quote(c08ShrinkBytes(s.src, func(x string) bool { _, _, _, p := c08GoLex(x); return p != "" }, 400))})
+			continue
+		}
+		ntok += len(toks)
+		for _, t := range toks {
+			nm := c08TokName(t.Id)
+			if t.Id < 128 {
+				nm = "punct"
+			}
+			if t.Id == syntax.VerifTokINVALID && len(t.Text) > 0 {
+				nm = "INVALID-with-text"
+			}
+			r.hist("tokkind:" + nm)
+		}
+		if strings.Contains(g, " | . | ") == false {
+			r.hist("stream:with-comments")
+		}
+		if i%1201 == 7 {
+			r.sample(map[string]string{"source": strconv.Quote(s.src), "go_Lex": g, "model_lexAll": reps[i]})
+		}
+		// the property, directly on the real code
+		if why := c08WalkTokens(s.src, toks, pos); why != "" {
+			small := c08ShrinkBytes(s.src, func(x string) bool {
+				_, tk, ps, p := c08GoLex(x)
+				return p == "" && c08WalkTokens(x, tk, ps) != ""
+			}, 400)
+			_, tk, ps, _ := c08GoLex(small)
+			r.violate(Violation{Kind: "property", Key: "C08:lexer-no-progress",
+				What:   "the tokenizer returned a token that is not the text of the source at the scan position, or an empty token that is not INVALID: " + c08WalkTokens(small, tk, ps),
+				Input:  strconv.Quote(small),
+				Expect: "every token is a non-empty prefix of the rest of the input (INVALID may be empty and ends the scan)"})
+		}
+		// correspondence with the model
+		if g != reps[i] {
+			small := c08ShrinkBytes(s.src, func(x string) bool {
+				gx, _, _, p := c08GoLex(x)
+				return p == "" && gx != c.Drv.Ask("C08.lex", hx(x))
+			}, 300)
+			if reported[small] {
+				continue
+			}
+			reported[small] = true
+			gs, _, _, _ := c08GoLex(small)
+			ms := c.Drv.Ask("C08.lex", hx(small))
+			impl, model := c08FirstDiff(gs, ms)
+			r.violate(Violation{Kind: "correspondence", Key: "C08:token-stream-mismatch",
+				What:  "the token stream of the real scanner loop (tokens with line and column, comment blocks, final position) differs from the Lean tokenizer model's",
+				Input: strconv.Quote(small), Impl: impl, Model: model,
+				Broken: "correspondence C08.lex (Martian.Tokenizer.lexAll; Props.C08.lexer_progress_full / lex_reconstructs)"})
+		}
+	}
+	// nextToken alone on single heads (the model's C08.next)
+	var heads []string
+	for i := 0; i < n/3; i++ {
+		h := c08StreamPieces[c.Rng.Intn(len(c08StreamPieces))]
+		if c.Rng.Intn(2) == 0 {
+			h += c08StreamPieces[c.Rng.Intn(len(c08StreamPieces))]
+		}
+		heads = append(heads, h)
+	}
+	hreqs := make([][]string, len(heads))
+	for i, h := range heads {
+		hreqs[i] = []string{"C08.next", hx(h)}
+	}
+	hreps := c.Drv.AskBatch(hreqs)
+	for i, h := range heads {
+		id, v := syntax.VerifNextToken([]byte(h))
+		g := fmt.Sprintf("%d %s", id, hx(string(v)))
+		r.count("next:"+h, len(v) > 0)
+		if g != hreps[i] {
+			mf := strings.Fields(hreps[i])
+			model := hreps[i]
+			if len(mf) == 2 {
+				mid, _ := strconv.Atoi(mf[0])
+				model = fmt.Sprintf("%s %s", c08TokName(mid), strconv.Quote(unhx(mf[1])))
+			}
+			r.violate(Violation{Kind: "correspondence", Key: "C08:next-token-mismatch",
+				What:  "nextToken differs from the Lean tokenizer model's nextToken",
+				Input: strconv.Quote(h), Impl: fmt.Sprintf("%s %s", c08TokName(id), strconv.Quote(string(v))), Model: model,
+				Broken: "correspondence C08.next (Martian.Tokenizer.nextToken; Proofs.Tokenizer.nextToken_prefix / nextToken_progress)"})
+		}
+	}
+	r.note("token streams: %d sources (%d bytes, %d tokens returned by Lex) + %d single heads compared with the Lean tokenizer model in %.1fs",
+		len(streams), nbytes, ntok, len(heads), time.Since(t0).Seconds())
 }
